@@ -1,7 +1,7 @@
 (* C15 — Dual DHT routes writes by WAN liveness and scopes addresses.
    Property theorems only; every proof is `exact <lemma>` (Proofs/DualProofs.v,
    Proofs/AddrClassProofs.v).  Models: Model/Dual.v (decision functions of
-   dual/dual.go) and Model/AddrClass.v (address classes, the query / routing-table /
+   dual/dual.go; the provider-record sites of handlers.go / routing.go) and Model/AddrClass.v (address classes, the query / routing-table /
    address filters of dht_filters.go and dual.New).
    Modelled, not verified: go-multiaddr's CIDR tables and domain lists (compared at
    every boundary by the correspondence run); the inner IpfsDHT operations are inputs. *)
@@ -110,6 +110,78 @@ Theorem c15_lan_no_loopback : forall own a,
 Proof. exact lan_no_loopback_spec. Qed.
 Print Assumptions c15_lan_no_loopback.
 
+(* 6b. The same at the three sites that handle provider records (handlers.go
+   handleAddProvider / handleGetProviders, routing.go findProvidersAsyncRoutine), for ALL
+   messages.  WAN DHT, inbound ADD_PROVIDER: every (peer, address) pair written to the
+   peerstore (through ProviderManager.AddProvider) is an address of one of the sender's own
+   entries of the message, is public and not loopback, and the key was acceptable and the
+   sender is not this node; conversely every public address of an accepted entry (an entry
+   of the sender; it has an address, so it passes the length test) is written. *)
+Theorem c15_wan_add_provider_stores_public : forall key_ok self sender msg,
+  (forall q a, In (q, a) (add_provider_writes WAN key_ok self sender msg) ->
+     key_ok = true /\ q = sender /\ q <> self /\
+     (exists e, In e msg /\ pe_id e = q /\ In a (pe_addrs e)) /\
+     manet_is_public a = true /\ is_ip_loopback a = false) /\
+  (forall e a, key_ok = true -> sender <> self -> In e msg -> pe_id e = sender -> In a (pe_addrs e) ->
+     manet_is_public a = true -> In (sender, a) (add_provider_writes WAN key_ok self sender msg)).
+Proof. exact wan_add_provider_spec. Qed.
+Print Assumptions c15_wan_add_provider_stores_public.
+
+(* WAN DHT, GET_PROVIDERS response, for every cut-off [fit] of the size cap: every address
+   attached to a provider record is a known address of that provider, public and not
+   loopback; when all records fit, every public address of every provider is attached. *)
+Theorem c15_wan_get_providers_attaches_public : forall key_ok fit provs,
+  (forall r a, In r (get_providers_attached WAN key_ok fit provs) -> In a (pe_addrs r) ->
+     (exists e, In e provs /\ pe_id e = pe_id r /\ In a (pe_addrs e)) /\
+     manet_is_public a = true /\ is_ip_loopback a = false) /\
+  (forall e a, key_ok = true -> (length provs <= fit)%nat -> In e provs -> In a (pe_addrs e) ->
+     manet_is_public a = true ->
+     exists r, In r (get_providers_attached WAN key_ok fit provs) /\ pe_id r = pe_id e /\ In a (pe_addrs r)).
+Proof. exact wan_get_providers_spec. Qed.
+Print Assumptions c15_wan_get_providers_attaches_public.
+
+(* WAN DHT, providers named in a GET_PROVIDERS response, for every processed prefix of the
+   response(s): every pair written to the peerstore is an address the response gave for
+   that peer, public and not loopback, and the peer is neither this node nor connected;
+   conversely every public address of a processed entry of such a peer is written. *)
+Theorem c15_wan_find_providers_stores_public : forall self connected processed,
+  (forall q a, In (q, a) (find_providers_writes WAN self connected processed) ->
+     q <> self /\ connected q = false /\
+     (exists e, In e processed /\ pe_id e = q /\ In a (pe_addrs e)) /\
+     manet_is_public a = true /\ is_ip_loopback a = false) /\
+  (forall e a, In e processed -> pe_id e <> self -> connected (pe_id e) = false -> In a (pe_addrs e) ->
+     manet_is_public a = true -> In (pe_id e, a) (find_providers_writes WAN self connected processed)).
+Proof. exact wan_find_providers_spec. Qed.
+Print Assumptions c15_wan_find_providers_stores_public.
+
+(* LAN DHT, the same three sites: nothing loopback is stored or attached, everything else
+   of an accepted / attached / processed entry is kept. *)
+Theorem c15_lan_provider_sites_no_loopback : forall key_ok self sender msg fit provs connected processed,
+  (forall q a, In (q, a) (add_provider_writes LAN key_ok self sender msg) ->
+     q = sender /\ (exists e, In e msg /\ pe_id e = q /\ In a (pe_addrs e)) /\ is_ip_loopback a = false) /\
+  (forall e a, key_ok = true -> sender <> self -> In e msg -> pe_id e = sender -> In a (pe_addrs e) ->
+     is_ip_loopback a = false -> In (sender, a) (add_provider_writes LAN key_ok self sender msg)) /\
+  (forall r a, In r (get_providers_attached LAN key_ok fit provs) -> In a (pe_addrs r) ->
+     (exists e, In e provs /\ pe_id e = pe_id r /\ In a (pe_addrs e)) /\ is_ip_loopback a = false) /\
+  (forall e a, key_ok = true -> (length provs <= fit)%nat -> In e provs -> In a (pe_addrs e) ->
+     is_ip_loopback a = false ->
+     exists r, In r (get_providers_attached LAN key_ok fit provs) /\ pe_id r = pe_id e /\ In a (pe_addrs r)) /\
+  (forall q a, In (q, a) (find_providers_writes LAN self connected processed) ->
+     (exists e, In e processed /\ pe_id e = q /\ In a (pe_addrs e)) /\ is_ip_loopback a = false) /\
+  (forall e a, In e processed -> pe_id e <> self -> connected (pe_id e) = false -> In a (pe_addrs e) ->
+     is_ip_loopback a = false -> In (pe_id e, a) (find_providers_writes LAN self connected processed)).
+Proof. exact lan_provider_sites_spec. Qed.
+Print Assumptions c15_lan_provider_sites_no_loopback.
+
+(* An announcement all of whose addresses the filter removes is still recorded (the length
+   test comes before the filter: handlers.go:259-267) but nothing is written for it. *)
+Theorem c15_add_provider_all_filtered : forall s self sender e,
+  pe_id e = sender -> pe_addrs e <> [] -> addr_filter s (pe_addrs e) = [] ->
+  add_provider_writes s true self sender [e] = [] /\ add_provider_recorded s true sender [e] = [sender] /\
+  add_provider_err s true sender [e] = false.
+Proof. exact add_provider_all_filtered. Qed.
+Print Assumptions c15_add_provider_all_filtered.
+
 (* 7. The classes themselves: public and private are disjoint; loopback is private and
    public under neither notion; a public IPv4 address lies in none of the private or
    unroutable networks; a public IPv6 address is one with top bits 001 (2000::/3). *)
@@ -158,4 +230,26 @@ Example c15_nonvacuous :
   write_target 2 = WAN /\ write_target 0 = LAN /\
   prov_merge 3 [AProv WAN 5; AProv LAN 5; AProv LAN 6; AClosed WAN; AProv LAN 7; AProv LAN 8; AClosed LAN] = [5%nat; 6%nat; 7%nat] /\
   wf true true [AProv WAN 5; AProv LAN 5; AProv LAN 6; AClosed WAN; AProv LAN 7; AProv LAN 8; AClosed LAN].
+Proof. repeat split; vm_compute; reflexivity. Qed.
+
+(* Non-vacuity of 6b: peer 1 announces the four addresses above (and peer 2's entry rides
+   along): the WAN DHT writes the two public ones under peer 1, the LAN DHT all but the
+   loopback one, peer 2's entry is ignored; an announcement with only the private and the
+   loopback address is recorded by the WAN DHT without any address; a GET_PROVIDERS
+   response of the WAN DHT attaches peers 1 and 2 with the public addresses only; a
+   provider search stores nothing for this node (0) or a connected peer (3). *)
+Example c15_provider_sites_nonvacuous :
+  let all := [ex_priv; ex_loop; ex_rel; ex_pub] in
+  let msg := [PE_ 1 all; PE_ 2 [ex_pub]; PE_ 1 []] in
+  map (fun qa => (fst qa, a_id (snd qa))) (add_provider_writes WAN true 0 1 msg) = [(1, 2); (1, 3)]%nat /\
+  map (fun qa => (fst qa, a_id (snd qa))) (add_provider_writes LAN true 0 1 msg) = [(1, 0); (1, 2); (1, 3)]%nat /\
+  add_provider_recorded WAN true 1 msg = [1%nat] /\ add_provider_err WAN true 1 msg = false /\
+  add_provider_writes WAN true 0 1 [PE_ 1 [ex_priv; ex_loop]] = [] /\
+  add_provider_recorded WAN true 1 [PE_ 1 [ex_priv; ex_loop]] = [1%nat] /\
+  add_provider_err WAN true 1 [PE_ 2 [ex_pub]] = true /\ add_provider_writes WAN false 0 1 msg = [] /\
+  map (fun r => (pe_id r, map a_id (pe_addrs r))) (get_providers_attached WAN true 2 [PE_ 1 all; PE_ 2 [ex_priv]])
+    = [(1, [2; 3]); (2, [])]%nat /\
+  map (fun qa => (fst qa, a_id (snd qa)))
+      (find_providers_writes WAN 0 (fun q => Nat.eqb q 3) [PE_ 0 all; PE_ 3 all; PE_ 4 all; PE_ 4 [ex_priv]])
+    = [(4, 2); (4, 3)]%nat.
 Proof. repeat split; vm_compute; reflexivity. Qed.
